@@ -3,7 +3,7 @@
    the window the C engine uses (window None is passed as 0 = "no window", a window w as w, clipped to the
    longer series by dtw_wps_parts -- the band is the same as the Python engine's unclipped one). *)
 From Coq Require Import ZArith Bool Lia List.
-From DV Require Import Prelude Cost Grid Dtw DtwSpec DtwProps Traceback TracebackC CWps CFill CTrace CTraceSim.
+From DV Require Import Prelude Cost Grid Dtw DtwSpec DtwProps Traceback TracebackC CWps CFill CExpand CFillSim CTrace CTraceSim.
 From DVGen Require Import Gen_cwps.
 Import ListNotations.
 Open Scope Z_scope.
@@ -30,6 +30,7 @@ Theorem c_loop_path_cost_for_dtw : forall u (s1 s2 : list point) (W : Z -> Z -> 
   (* the compact array holds the specification matrix through the layout (correspondence, C04) *)
   (forall (i : nat) (s : Z), Z.of_nat i <= l1 -> 0 <= s < cw_width l1 l2 w0 ->
      0 <= s + cw_shift l1 l2 w0 (Z.of_nat i - 1) <= l2 ->
+     (s + cw_shift l1 l2 w0 (Z.of_nat i - 1) = 0 -> Z.of_nat i <= cw_ri2 l1 l2 w0) ->
      W (Z.of_nat i) s = Mfun u s1 s2 i (Z.to_nat (s + cw_shift l1 l2 w0 (Z.of_nat i - 1)))) ->
   forall fuel i j wpsi, (i + j <= fuel)%nat -> Z.of_nat i <= l1 -> Z.of_nat j <= l2 -> Mfun u s1 s2 i j <> Inf ->
   wpsi = Z.of_nat j - cw_shift l1 l2 w0 (Z.of_nat i - 1) ->
